@@ -401,3 +401,139 @@ Proof.
   pose proof (passes_inv body n st0 HI0 G) as H.
   destruct (run_passes body st0 n); auto. now apply Inv_wf_tight.
 Qed.
+
+(* ================================================================== simulation of CPython *)
+Definition refs (e : env nat) : list nat := flat_map (fun xo => [snd xo]) e.
+
+Definition Sim (pst : pstate) (st : fstate) : Prop :=
+  p_loc pst = [] /\ NoDup (refs (p_glob pst)) /\
+  map fst (p_glob pst) = map fst (f_glob st) /\
+  (forall o, In o (refs (p_glob pst)) -> o < length (p_objs pst)) /\
+  (forall x o, assoc x (p_glob pst) = Some o ->
+     o < length (p_objs pst) /\
+     exists l, assoc x (f_glob st) = Some l /\ rep (f_heap st) l (p_obj pst o)).
+
+Lemma nth_upd_same : forall (A : Type) (l : list A) n a d, n < length l -> nth n (upd l n a) d = a.
+Proof. induction l as [|x r IH]; intros [|n] a d H; simpl in *; try lia; auto. apply IH. lia. Qed.
+
+Lemma nth_upd_other : forall (A : Type) (l : list A) n m a d, n <> m -> nth m (upd l n a) d = nth m l d.
+Proof. induction l as [|x r IH]; intros [|n] [|m] a d H; simpl; auto; try congruence. Qed.
+
+Lemma sim_var : forall pst st x o, Inv st -> Sim pst st -> p_ref pst x = POk o ->
+  assoc x (p_glob pst) = Some o /\ o < length (p_objs pst) /\
+  exists l, assoc x (f_glob st) = Some l /\ f_lookup st x = l /\ rep (f_heap st) l (p_obj pst o).
+Proof.
+  intros pst st x o (Hloc & _) (Pl & _ & _ & _ & Hv) R. unfold p_ref in R. rewrite Pl in R. simpl in R.
+  destruct (assoc x (p_glob pst)) as [o'|] eqn:E; inversion R; subst.
+  destruct (Hv x o E) as (Ho & l & Hx & Hr). repeat split; auto.
+  exists l. repeat split; auto. now apply lookup_glob.
+Qed.
+
+Lemma sim_store : forall pst st x o l h' l' cs',
+  Inv st -> Sim pst st ->
+  assoc x (p_glob pst) = Some o -> assoc x (f_glob st) = Some l ->
+  upd_ok (f_heap st) l h' l' cs' ->
+  Sim (mkp (upd (p_objs pst) o cs') (p_glob pst) (p_loc pst)) (f_store st h' x l').
+Proof.
+  intros pst st x o l h' l' cs' (Hloc & (_ & Hown & Hall) & _) (Pl & Pn & Pnames & Pb & Hv) Px Fx U.
+  destruct (Hv x o Px) as (Ho & _).
+  unfold Sim. simpl. unfold f_store. rewrite Hloc. simpl.
+  repeat split; auto.
+  - now rewrite set_assoc_names.
+  - intros o0 Ho0. rewrite upd_length. auto.
+  - rewrite upd_length. destruct (Hv _ _ H) as (? & _). auto.
+  - rewrite assoc_set_assoc, Fx. unfold p_obj. simpl.
+    destruct (Z.eqb x0 x) eqn:E.
+    + apply Z.eqb_eq in E. subst x0. assert (o0 = o) by congruence. subst o0.
+      exists l'. split; auto. rewrite nth_upd_same by auto. apply (uo_rep _ _ _ _ _ U).
+    + assert (Hne : x0 <> x) by (intro; subst; rewrite Z.eqb_refl in E; discriminate).
+      destruct (Hv x0 o0 H) as (Ho0 & m & Fm & Rm). exists m. split; auto.
+      assert (o <> o0).
+      { intro; subst o0. apply (footprint_distinct nat (fun o => [o]) (p_glob pst) x0 x o o o Pn H Px Hne); simpl; auto. }
+      rewrite nth_upd_other by auto. eapply rep_frame; eauto.
+      intros b Eb. apply (uo_frame _ _ _ _ _ U).
+      * eapply rep_bound; eauto.
+      * intro El. apply (footprint_distinct lval optl (f_glob st) x0 x m l b Hown Fm Fx Hne);
+          unfold optl; [rewrite Eb | rewrite El]; simpl; auto.
+Qed.
+
+Lemma exec_sim : forall in_loop st pst s pst' out,
+  Inv st -> Sim pst st -> use_ok (map fst (f_glob st)) s = true ->
+  p_exec in_loop pst s = POk (pst', out) ->
+  exists st', f_exec in_loop st s = Safe (st', out) /\ Sim pst' st'.
+Proof.
+  intros in_loop st pst s pst' out HI HS U P. pose proof HI as (Hloc & _). pose proof HS as (Pl & _).
+  destruct s; simpl in U; try discriminate; cbn [p_exec] in P.
+  - (* LAssignVar x x *)
+    apply andb_true_iff in U. destruct U as [E U]. apply Z.eqb_eq in E. subst y.
+    destruct (p_ref pst x) as [o|] eqn:R; simpl in P; try discriminate.
+    destruct (sim_var pst st x o HI HS R) as (Px & Ho & l & Fx & Hlk & Hr).
+    unfold p_bind in P. rewrite Pl in P. unfold has in P. simpl in P. rewrite Px in P.
+    rewrite set_assoc_same in P by auto. inversion P; subst; clear P.
+    unfold f_exec, f_declared. rewrite Hloc. unfold has. simpl. rewrite Fx, Hlk, Z.eqb_refl. simpl.
+    rewrite store_same by auto. exists st. split; auto.
+    destruct pst as [ob gl lo]. simpl in *. now subst lo.
+  - (* LAppend *)
+    destruct (p_ref pst x) as [o|] eqn:R; simpl in P; try discriminate. inversion P; subst; clear P.
+    destruct (sim_var pst st x o HI HS R) as (Px & Ho & l & Fx & Hlk & Hr).
+    destruct (append_ok _ l _ v Hr) as (h' & l' & E & UO).
+    unfold f_exec. rewrite Hlk, E. simpl. eexists. split; [reflexivity|]. eapply sim_store; eauto.
+  - (* LRemove *)
+    destruct (p_ref pst x) as [o|] eqn:R; simpl in P; try discriminate.
+    destruct (sim_var pst st x o HI HS R) as (Px & Ho & l & Fx & Hlk & Hr).
+    destruct (remove_ok _ l _ v Hr) as (h' & l' & E & UO).
+    destruct (remove_first v (p_obj pst o)) as [cs'|] eqn:RF; try discriminate. inversion P; subst; clear P.
+    unfold f_exec. rewrite Hlk, E. simpl. eexists. split; [reflexivity|]. eapply sim_store; eauto.
+  - (* LGet *)
+    destruct (p_ref pst x) as [o|] eqn:R; simpl in P; try discriminate.
+    destruct (sim_var pst st x o HI HS R) as (Px & Ho & l & Fx & Hlk & Hr).
+    unfold f_exec. rewrite Hlk, (get_spec _ l _ i Hr).
+    destruct (py_index (length (p_obj pst o)) i); try discriminate. inversion P; subst; clear P.
+    simpl. eauto.
+  - (* LSet *)
+    destruct (p_ref pst x) as [o|] eqn:R; simpl in P; try discriminate.
+    destruct (sim_var pst st x o HI HS R) as (Px & Ho & l & Fx & Hlk & Hr).
+    destruct (py_index (length (p_obj pst o)) i) as [k|] eqn:PI; try discriminate. inversion P; subst; clear P.
+    destruct (set_ok _ l _ i v k Hr PI) as (h' & E & UO).
+    unfold f_exec. rewrite Hlk, E. simpl. eexists. split; [reflexivity|].
+    pose proof (sim_store pst st x o l h' l _ HI HS Px Fx UO) as S'.
+    unfold f_store in S'. rewrite Hloc in S'. simpl in S'. rewrite set_assoc_same in S' by auto.
+    rewrite Hloc. exact S'.
+  - (* LCallGet *)
+    destruct (p_ref pst x) as [o|] eqn:R; simpl in P; try discriminate.
+    destruct (sim_var pst st x o HI HS R) as (Px & Ho & l & Fx & Hlk & Hr).
+    unfold f_exec. rewrite Hlk, (get_spec _ l _ i Hr).
+    destruct (py_index (length (p_obj pst o)) i); try discriminate. inversion P; subst; clear P.
+    simpl. eauto.
+Qed.
+
+Lemma refs_app : forall a b, refs (a ++ b) = refs a ++ refs b.
+Proof. induction a as [|x r IH]; intros; simpl; auto. unfold refs in *. simpl. now rewrite IH. Qed.
+
+Lemma sim_decl : forall pst st x h' l' cs,
+  Inv st -> Sim pst st -> existsb (Z.eqb x) (map fst (f_glob st)) = false ->
+  fresh_ok (f_heap st) h' l' cs ->
+  Sim (p_new false pst x cs) (f_declare false st h' x l').
+Proof.
+  intros pst st x h' l' cs (Hloc & _) (Pl & Pn & Pnames & Pb & Hv) Hx F.
+  pose proof Hx as Hx'. rewrite <- Pnames in Hx'.
+  destruct (assoc_none_names _ _ _ Hx) as (Fnone & _).
+  destruct (assoc_none_names _ _ _ Hx') as (Pnone & _).
+  unfold p_new, p_bind, has. rewrite Pl. simpl. rewrite Pnone.
+  unfold Sim, f_declare. simpl. rewrite refs_app, !map_app, Pnames. simpl.
+  repeat split; auto.
+  - apply NoDup_app_iff. repeat split; auto.
+    + repeat constructor. simpl. tauto.
+    + intros o Ho [<-|[]]. apply Pb in Ho. lia.
+  - intros o Ho. rewrite app_length. simpl. apply in_app_or in Ho. destruct Ho as [Ho|[<-|[]]]; [apply Pb in Ho|]; lia.
+  - rewrite assoc_app_new in H by auto. rewrite app_length. simpl.
+    destruct (Z.eqb x0 x); [inversion H; subst; lia | destruct (Hv _ _ H); lia].
+  - rewrite assoc_app_new in H by auto. rewrite assoc_app_new by auto. unfold p_obj. simpl.
+    destruct (Z.eqb x0 x).
+    + inversion H; subst. exists l'. split; auto. rewrite app_nth2 by lia. rewrite Nat.sub_diag. simpl.
+      eapply fresh_rep; eauto.
+    + destruct (Hv _ _ H) as (Ho & m & Fm & Rm). exists m. split; auto.
+      rewrite app_nth1 by auto.
+      destruct F as [(_ & -> & _)|(_ & -> & _)]; auto.
+      eapply rep_frame; eauto. intros b Eb. apply nth_error_app_old. eapply rep_bound; eauto.
+Qed.
